@@ -14,7 +14,7 @@ if n!=1:
 s2=re.sub(pat,rep,s,count=1)
 open(p,'w').write(s2)
 PY
-timeout 3000 python3 /verif/run_check.py $pid --tier $tier 2>&1 | grep -E "VIOLATION|HARNESS-ERROR|^C[0-9]+ |::" | cut -c1-400 | head -12
+VERIF_EVIDENCE_DIR=/tmp/wt/ev-trial VERIF_REPLAY_DIR=/tmp/wt/ev-trial timeout 3000 python3 /verif/run_check.py $pid --tier $tier 2>&1 | grep -E "VIOLATION|HARNESS-ERROR|^C[0-9]+ |::" | cut -c1-400 | head -12
 echo "exit=${PIPESTATUS[0]}"
 cp /tmp/_mut_backup.$$ /repo/$file; rm -f /tmp/_mut_backup.$$
 git -C /repo status --short | head -3
